@@ -40,7 +40,24 @@ def source(i: int) -> Any:
     return _SRC_CACHE[i]
 
 
-def build_origin(spec: tuple) -> Any:
+def fresh_source(i: int) -> Any:
+    """an equal but distinct source object (same uri / type / text)"""
+    from pyoak.origin import MemoryTextSource
+
+    return MemoryTextSource(TEXTS[i], source_uri=f"mem://verif/{i}")
+
+
+def build_origin(spec: tuple, src=None) -> Any:
+    """src: optional function index -> source object (default: one cached object per index)"""
+    global source
+    if src is not None:
+        saved = source
+        source = src
+        try:
+            return build_origin(spec)
+        finally:
+            source = saved
+
     from pyoak.origin import (
         NO_ORIGIN,
         CodeOrigin,
